@@ -134,6 +134,32 @@ macro_rules! inc_t { ($($n:ident: $t:ty, $c:expr, $l:literal, $nn:literal, $s:li
 crate::cnt_types_q!(inc_q);
 crate::cnt_types_t!(inc_t);
 
+/// a wrapper stacked ABOVE a finite, non-binding depth limit: hooks must be forwarded both ways (a swallowed ascend makes
+/// the tracked depth only grow, so wide-but-shallow values fail). The outer type's Decode wraps its input in CountedInput.
+pub struct CountedVecOfBoxes(pub Vec<Box<u8>>);
+impl Decode for CountedVecOfBoxes {
+	fn decode<I: Input>(input: &mut I) -> Result<Self, Error> {
+		let mut c = CountedInput::new(input);
+		let v = Vec::<Box<u8>>::decode(&mut c)?;
+		Ok(CountedVecOfBoxes(v))
+	}
+}
+#[kani::proof]
+#[kani::unwind(8)]
+pub fn c08q_counted_above_finite_depth_limit() {
+	let bytes: [u8; 3] = kani::any();
+	// three boxes in a vector: nesting depth 2, whatever the number of siblings
+	let r = CountedVecOfBoxes::decode_with_depth_limit(2, &mut Pre::count(3, &bytes[..]));
+	let r0 = Vec::<Box<u8>>::decode_with_depth_limit(2, &mut Pre::count(3, &bytes[..]));
+	assert!(r0.is_ok(), "depth 2 suffices for a vector of boxes");
+	assert!(r.is_ok(), "the same value failed under the same non-binding limit once CountedInput sits above the depth tracker");
+	let mut sl = &bytes[..];
+	let mut m = MemTrackingInput::new(&mut sl, usize::MAX);
+	let r2 = <[Box<Box<u8>>; 3]>::decode_with_depth_limit(2, &mut CountedInput::new(&mut m));
+	assert!(r2.is_ok(), "depth 2 suffices for three sibling Box<Box<u8>> through counted(mem) under a depth limit");
+	core::mem::forget((r, r0, r2));
+}
+
 /// the remaining_len guard before the bulk read: count exceeds the data; known vs unknown length must agree (both Err)
 #[kani::proof]
 #[kani::unwind(8)]
